@@ -433,5 +433,5 @@ CONTRACTS = [
     Contract("C14.update.mc_rx", M + "_net_update", {"self": rec_schema(queue=recq())}, requires=[R + "req_mc_rx"],
              ensures=[("mc_rx", R + "ens_mc_rx")], raises=(), policy=POL_RX, props=["C14"], replayable=False),
     Contract("C13.update.ack", M + "_net_update", {"self": rec_schema(queue=recq())}, requires=[R + "req_ack_for_me"],
-             ensures=[("reported", R + "ens_ack_for_me")], raises=(), policy=POL_RX, props=["C13"], replayable=False),
+             ensures=[("reported", R + "ens_ack_for_me")], raises=(), policy=POL_RX, props=["C13", "C05"], replayable=False),
 ]
